@@ -183,7 +183,7 @@ func (st *c18State) scribble(b []byte) {
 func runC18(r *mon.Run) {
 	n := bigN
 	for _, c := range []string{"c18:panic:uninit-operand", "c18:uninit-receiver-ok", "c18:decode:fail", "c18:decode:ok", "c18:alias:rcv=operand", "c18:key:from-pool-scalar",
-		"c18:key:from-pool-point", "c18:key:behaviour-check", "c18:handed-out:scalar-into-pool", "c18:handed-out:point-into-pool", "c18:ctor:fail"} {
+		"c18:key:from-pool-point", "c18:key:behaviour-check", "c18:handed-out:scalar-into-pool", "c18:handed-out:point-into-pool", "c18:ctor:fail", "c18:alias:rcv-in-vector"} {
 		r.Require(c)
 	}
 	runUninitMatrix(r)
@@ -242,7 +242,7 @@ func (st *c18State) doStep() {
 			st.pts[d], st.mpts[d] = pointRep(q.P, z), q.P
 		}
 	}()
-	op := rng.Intn(44)
+	op := rng.Intn(47)
 	if rng.Chance(1, 25) {
 		// a pool slot becomes a fresh zero-value Point again
 		st.pts[d], st.mpts[d] = new(Point), nil
@@ -577,6 +577,57 @@ func (st *c18State) doStep() {
 		st.scribble(bts)
 		st.checkScalar(sa, "Scalar.Bytes+scribble")
 		st.frame(ps, ss, -1, -1, "Scalar.Bytes")
+	case 44, 45:
+		// Sum / Product over pool entries: the receiver may be any (or several) of the entries
+		l := rng.Intn(6)
+		vec := make([]*Scalar, l)
+		acc := big.NewInt(int64(op - 44)) // 0 for Sum, 1 for Product
+		name := []string{"Scalar.Sum", "Scalar.Product"}[op-44]
+		for i := range vec {
+			j := rng.Intn(c18Scalars)
+			if rng.Chance(1, 3) {
+				j = sd
+			}
+			if j == sd {
+				w.Class("c18:alias:rcv-in-vector")
+			}
+			vec[i] = st.scs[j]
+			if op == 44 {
+				acc = oracle.AddM(acc, st.mscs[j], n)
+			} else {
+				acc = oracle.MulM(acc, st.mscs[j], n)
+			}
+		}
+		if op == 44 {
+			st.scs[sd].Sum(vec...)
+		} else {
+			st.scs[sd].Product(vec...)
+		}
+		st.mscs[sd] = acc
+		st.checkScalar(sd, name)
+		st.frame(ps, ss, -1, sd, name)
+	case 46:
+		switch rng.Intn(4) {
+		case 0:
+			st.scs[sd].Negate(st.scs[sa])
+			st.mscs[sd] = oracle.NegM(st.mscs[sa], n)
+		case 1:
+			st.scs[sd].Square(st.scs[sa])
+			st.mscs[sd] = oracle.MulM(st.mscs[sa], st.mscs[sa], n)
+		case 2:
+			ctrl := gen.Pick(rng, gen.CtrlValues...)
+			st.scs[sd].ConditionalNegate(st.scs[sa], ctrl)
+			if ctrl != 0 {
+				st.mscs[sd] = oracle.NegM(st.mscs[sa], n)
+			} else {
+				st.mscs[sd] = st.mscs[sa]
+			}
+		default:
+			st.scs[sd].Set(st.scs[sa])
+			st.mscs[sd] = st.mscs[sa]
+		}
+		st.checkScalar(sd, "Scalar.unary")
+		st.frame(ps, ss, -1, sd, "Scalar.unary")
 	// ---- keys: values passed in are copied, values handed out are copies ---------------
 	case 32:
 		k := rng.Intn(c18Keys)
